@@ -136,11 +136,11 @@ def run(chk):
     bad = to_driver(next(c for c in cases if c["args"]["class"] == "none" and c["args"]["cmd"] == "main/inv"))
     bad["exp"] = dict(verdict="reject", stage="checksum", read=24, alloc=0)
     recs, _ = vf.run_driver(binary, ["run", ec.write_cases("bad1.jsonl", [bad])])
-    chk.selftest("a valid frame declared 'reject'", ec.has_violation(recs))
+    ec.selftest(chk, "a valid frame declared 'reject'", recs)
     bad = to_driver(next(c for c in cases if c["args"]["class"] == "checksum" and c["args"]["cmd"] == "main/inv"))
     bad["exp"]["read"] -= 1
     recs, _ = vf.run_driver(binary, ["run", ec.write_cases("bad2.jsonl", [bad])])
-    chk.selftest("expected bytes consumed lowered by one", ec.has_violation(recs))
+    ec.selftest(chk, "expected bytes consumed lowered by one", recs)
 
     chk.assumptions += [
         "one valid instance per command the factories of p2p/peer + elanet (main network) and dpos/p2p/peer + dpos (DPoS network) "
@@ -154,4 +154,5 @@ def run(chk):
         "instances additionally go through net.Pipe",
         "allocation = runtime/metrics /gc/heap/allocs:bytes delta around ReadMessage, re-measured exactly with runtime.MemStats.TotalAlloc when above the bound with the logger above warning level, 64 KiB slack",
     ]
-    return chk.finish(exhaustive=True)
+    # the spec's case space is enumerated and run completely; payload offsets of long payloads are sampled
+    return chk.finish(exhaustive=False)
